@@ -90,7 +90,11 @@ type refTemplate struct {
 
 // matchAll enumerates every assignment of '/'-free strings to the
 // parameters of t that makes the concatenation equal p.
-func matchAll(parts []Part, p string) [][]string {
+func matchAll(parts []Part, p string) [][]string { return matchAllX(parts, p, false) }
+
+// matchAllX: with relaxed, parameters may contain '/' (the caller uses relaxed only
+// for route sets in which some parameter is directly followed by a non-slash literal).
+func matchAllX(parts []Part, p string, relaxed bool) [][]string {
 	var out [][]string
 	var cur []string
 	var rec func(i int, rest string)
@@ -113,7 +117,9 @@ func matchAll(parts []Part, p string) [][]string {
 		}
 		for e := 0; e <= len(rest); e++ {
 			if e > 0 && rest[e-1] == '/' {
-				break
+				if !relaxed {
+					break
+				}
 			}
 			cur = append(cur, rest[:e])
 			rec(i+1, rest[e:])
@@ -384,48 +390,193 @@ func c05Set(r *ev.Run, d *C05Data, set *C05Set, idx int) error {
 			t    *refTemplate
 			asgs [][]string
 		}
-		var M []m1
-		var staticHit *refTemplate
-		for _, t := range ts {
-			if a := matchAll(t.parts, pEsc); len(a) > 0 {
-				M = append(M, m1{t, a})
-				if t.static {
-					staticHit = t
+		type verdict struct{ sig, rule string }
+		var lastM []m1
+		var lastRestricted bool
+		unesc := func(vs []string) []string {
+			out := make([]string, len(vs))
+			for i, v := range vs {
+				if escaped {
+					if u, err := url.PathUnescape(v); err == nil {
+						out[i] = u
+						continue
+					}
+				}
+				out[i] = v
+			}
+			return out
+		}
+		// judge decides the observation against the reference router. relaxed=false is the
+		// property's semantics; relaxed=true lets a parameter that is directly followed by a
+		// non-slash literal span '/' (used only to *name* one known defect, never to excuse another).
+		judge := func(relaxed bool) []verdict {
+			var vs []verdict
+			vadd := func(sig, rule string) { vs = append(vs, verdict{sig, rule}) }
+			var M []m1
+			var staticHit *refTemplate
+			for _, t := range ts {
+				if a := matchAllX(t.parts, pEsc, relaxed); len(a) > 0 {
+					M = append(M, m1{t, a})
+					if t.static {
+						staticHit = t
+					}
 				}
 			}
-		}
-		restricted := false
-		for _, m := range M {
-			for _, a := range m.asgs {
-				ok := true
-				for _, v := range a {
-					if v == "" {
-						ok = false
-					}
-					for k := 0; k < len(v); k++ {
-						if tails[v[k]] || v[k] == '/' || v[k] == '%' {
+			restricted := false
+			for _, m := range M {
+				for _, a := range m.asgs {
+					ok := true
+					for _, v := range a {
+						if v == "" {
 							ok = false
+						}
+						for k := 0; k < len(v); k++ {
+							if tails[v[k]] || v[k] == '/' || v[k] == '%' {
+								ok = false
+							}
+						}
+					}
+					if ok {
+						restricted = true
+					}
+				}
+			}
+			if staticHit != nil {
+				restricted = true
+			}
+			if !relaxed {
+				lastM, lastRestricted = M, restricted
+			}
+			routed400 := false
+			// 1. soundness
+			if o.Calls >= 1 {
+				t := tmplOfOp[o.Op]
+				switch {
+				case t == nil:
+					vadd("unknown-operation", "handler method is not an operation of the spec")
+				case methOfOp[o.Op] != q.Method:
+					vadd("wrong-method", fmt.Sprintf("operation %s is %s but request method is %s", o.Op, methOfOp[o.Op], q.Method))
+				default:
+					asgs := matchAllX(t.parts, pEsc, relaxed)
+					found := false
+					for _, a := range asgs {
+						if reflect.DeepEqual(unesc(a), o.Values) || (len(a) == 0 && len(o.Values) == 0) {
+							found = true
+						}
+					}
+					if !found {
+						sig := "unsound-dispatch"
+						for _, v := range o.Values {
+							if strings.Contains(v, "/") && !strings.Contains(strings.ToUpper(pEsc), "%2F") {
+								sig = "unsound-dispatch/slash-in-argument"
+							}
+						}
+						if len(asgs) > 0 && sig == "unsound-dispatch" {
+							sig = "unsound-dispatch/wrong-arguments"
+						}
+						vadd(sig, fmt.Sprintf("request path %q is not template %s instantiated with the received arguments %q (slash-free assignments: %v)", pEsc, t.Path, o.Values, asgs))
+					}
+					if staticHit != nil && t != staticHit {
+						vadd("static-not-preferred", fmt.Sprintf("path equals static template %s but templated %s ran", staticHit.Path, t.Path))
+					}
+				}
+				if o.Status < 200 || o.Status > 299 {
+					vadd("handler-ran-but-status", fmt.Sprintf("handler ran but status is %d", o.Status))
+				}
+			}
+			// 2. nothing matches -> 404
+			if len(M) == 0 && (o.Calls > 0 || o.Status != 404) {
+				if o.Calls == 0 {
+					vadd("no-template-matches-but-not-404", fmt.Sprintf("no template matches %q under any slash-free assignment, status %d", pEsc, o.Status))
+				}
+			}
+			// 3. 405 / OPTIONS default
+			if o.Calls == 0 && (o.Status == 405 || (o.Status == 204 && q.Method == "OPTIONS")) {
+				hdr := o.Allow
+				if o.Status == 204 {
+					hdr = o.ACAM
+				}
+				ok := false
+				for _, m := range M {
+					if _, def := m.t.Methods[q.Method]; !def && normAllow(hdr) == methodSet(m.t) {
+						if staticHit == nil || m.t == staticHit {
+							ok = true
 						}
 					}
 				}
-				if ok {
-					restricted = true
+				if !ok {
+					vadd("allow-header", fmt.Sprintf("status %d with method list %q does not equal the defined methods of a matching template on which %s is undefined", o.Status, hdr, q.Method))
+				}
+			} else if o.Calls == 0 && o.Status == 400 {
+				// routed, then the parameter decoder refused a value (an empty required path parameter)
+				routed400 = true
+				okEmpty := false
+				for _, m := range M {
+					if _, def := m.t.Methods[q.Method]; !def {
+						continue
+					}
+					for _, a := range m.asgs {
+						for _, v := range a {
+							if v == "" {
+								okEmpty = true
+							}
+						}
+					}
+				}
+				if !okEmpty {
+					vadd("refused-400", "status 400 but no matching template defines the method with an assignment containing an empty value")
+				}
+			} else if o.Calls == 0 && o.Status != 404 {
+				vadd("unexpected-status", fmt.Sprintf("no handler ran and status is %d (expected 404, 405, 400 for an empty argument, or OPTIONS 204)", o.Status))
+			}
+			// 4. restricted completeness
+			if restricted && o.Calls == 0 && o.Status == 404 {
+				vadd("instance-not-routed", fmt.Sprintf("%q is an instance of a template with slash-free, tail-free, non-empty values (or equals a static template) but got 404", pEsc))
+			}
+			if staticHit != nil && o.Calls == 0 && (o.Status == 405 || o.Status == 204) {
+				if _, def := staticHit.Methods[q.Method]; def {
+					vadd("static-method-defined-but-405", "method is defined on the static template equal to the path")
 				}
 			}
+			if restricted && o.Calls == 0 && (o.Status == 405 || o.Status == 204) && staticHit == nil {
+				// method defined on every matching template that has a restricted assignment -> must have been dispatched
+				// (weaker, unambiguous form: exactly one template matches)
+				if len(M) == 1 {
+					if _, def := M[0].t.Methods[q.Method]; def {
+						vadd("method-defined-but-405", "single matching template defines the method")
+					}
+				}
+			}
+			// 5. FindPath agrees with serving
+			if o.FindOK != (o.Calls > 0 || routed400) {
+				vadd("findpath-disagrees", fmt.Sprintf("FindPath found=%v but handler invoked=%v", o.FindOK, o.Calls > 0))
+			} else if o.FindOK && o.Calls > 0 {
+				t := tmplOfOp[o.Op]
+				if o.FindName != o.Op || (t != nil && (o.FindPat != t.Path || o.FindOpID != t.Methods[q.Method])) {
+					vadd("findpath-disagrees", fmt.Sprintf("FindPath reports %s %s %s, serving ran %s", o.FindName, o.FindPat, o.FindOpID, o.Op))
+				} else {
+					fa := o.FindArgs
+					if !escaped {
+						// FindPath leaves args as they are when RawPath is empty; so does the handler
+					}
+					if !(len(fa) == 0 && len(o.Values) == 0) && !reflect.DeepEqual(fa, o.Values) {
+						vadd("findpath-args-disagree", fmt.Sprintf("FindPath args %q, handler received %q", fa, o.Values))
+					}
+				}
+			}
+			return vs
 		}
-		if staticHit != nil {
-			restricted = true
-		}
+		strict := judge(false)
 		wit := func(rule string) map[string]any {
 			var tm []string
 			for _, t := range set.Templates {
 				tm = append(tm, fmt.Sprintf("%s [%s]", t.Path, methodSet(&refTemplate{C05Template: t})))
 			}
 			var mm []string
-			for _, m := range M {
+			for _, m := range lastM {
 				mm = append(mm, m.t.Path)
 			}
-			return map[string]any{"set": set.Key, "templates": tm, "request": q, "observed": o, "rule": rule, "matched_on": pEsc, "reference_matching_templates": mm, "restricted_instance": restricted, "origin": set.Origin}
+			return map[string]any{"set": set.Key, "templates": tm, "request": q, "observed": o, "rule": rule, "matched_on": pEsc, "reference_matching_templates": mm, "restricted_instance": lastRestricted, "origin": set.Origin}
 		}
 		viol := func(sig, rule string) {
 			r.Violate("router/"+sig, fmt.Sprintf("templates %v: %s %s -> status %d op %q values %q: %s", templPaths(set), q.Method, q.Target+q.Raw, o.Status, o.Op, o.Values, rule), wit(rule))
@@ -440,136 +591,24 @@ func c05Set(r *ev.Run, d *C05Data, set *C05Set, idx int) error {
 		if o.Calls > 1 {
 			viol("handler-called-twice", "handler invoked more than once")
 		}
-		unesc := func(vs []string) []string {
-			out := make([]string, len(vs))
-			for i, v := range vs {
-				if escaped {
-					if u, err := url.PathUnescape(v); err == nil {
-						out[i] = u
-						continue
-					}
-				}
-				out[i] = v
-			}
-			return out
-		}
-		routed400 := false
-		// 1. soundness
-		if o.Calls >= 1 {
-			t := tmplOfOp[o.Op]
-			switch {
-			case t == nil:
-				viol("unknown-operation", "handler method is not an operation of the spec")
-			case methOfOp[o.Op] != q.Method:
-				viol("wrong-method", fmt.Sprintf("operation %s is %s but request method is %s", o.Op, methOfOp[o.Op], q.Method))
-			default:
-				asgs := matchAll(t.parts, pEsc)
-				found := false
-				for _, a := range asgs {
-					if reflect.DeepEqual(unesc(a), o.Values) || (len(a) == 0 && len(o.Values) == 0) {
-						found = true
-					}
-				}
-				if !found {
-					sig := "unsound-dispatch"
-					for _, v := range o.Values {
-						if strings.Contains(v, "/") && !strings.Contains(strings.ToUpper(pEsc), "%2F") {
-							sig = "unsound-dispatch/slash-in-argument"
-						}
-					}
-					if len(asgs) > 0 && sig == "unsound-dispatch" {
-						sig = "unsound-dispatch/wrong-arguments"
-					}
-					viol(sig, fmt.Sprintf("request path %q is not template %s instantiated with the received arguments %q (slash-free assignments: %v)", pEsc, t.Path, o.Values, asgs))
-				}
-				if staticHit != nil && t != staticHit {
-					viol("static-not-preferred", fmt.Sprintf("path equals static template %s but templated %s ran", staticHit.Path, t.Path))
+		if len(strict) > 0 {
+			nonSlashTail := false
+			for b := range tails {
+				if b != '/' {
+					nonSlashTail = true
 				}
 			}
-			if o.Status < 200 || o.Status > 299 {
-				viol("handler-ran-but-status", fmt.Sprintf("handler ran but status is %d", o.Status))
-			}
-		}
-		// 2. nothing matches -> 404
-		if len(M) == 0 && (o.Calls > 0 || o.Status != 404) {
-			if o.Calls == 0 {
-				viol("no-template-matches-but-not-404", fmt.Sprintf("no template matches %q under any slash-free assignment, status %d", pEsc, o.Status))
-			}
-		}
-		// 3. 405 / OPTIONS default
-		if o.Calls == 0 && (o.Status == 405 || (o.Status == 204 && q.Method == "OPTIONS")) {
-			hdr := o.Allow
-			if o.Status == 204 {
-				hdr = o.ACAM
-			}
-			ok := false
-			for _, m := range M {
-				if _, def := m.t.Methods[q.Method]; !def && normAllow(hdr) == methodSet(m.t) {
-					if staticHit == nil || m.t == staticHit {
-						ok = true
-					}
-				}
-			}
-			if !ok {
-				viol("allow-header", fmt.Sprintf("status %d with method list %q does not equal the defined methods of a matching template on which %s is undefined", o.Status, hdr, q.Method))
-			}
-		} else if o.Calls == 0 && o.Status == 400 {
-			// routed, then the parameter decoder refused a value (an empty required path parameter)
-			routed400 = true
-			okEmpty := false
-			for _, m := range M {
-				if _, def := m.t.Methods[q.Method]; !def {
-					continue
-				}
-				for _, a := range m.asgs {
-					for _, v := range a {
-						if v == "" {
-							okEmpty = true
-						}
-					}
-				}
-			}
-			if !okEmpty {
-				viol("refused-400", "status 400 but no matching template defines the method with an assignment containing an empty value")
-			}
-		} else if o.Calls == 0 && o.Status != 404 {
-			viol("unexpected-status", fmt.Sprintf("no handler ran and status is %d (expected 404, 405, 400 for an empty argument, or OPTIONS 204)", o.Status))
-		}
-		// 4. restricted completeness
-		if restricted && o.Calls == 0 && o.Status == 404 {
-			viol("instance-not-routed", fmt.Sprintf("%q is an instance of a template with slash-free, tail-free, non-empty values (or equals a static template) but got 404", pEsc))
-		}
-		if staticHit != nil && o.Calls == 0 && (o.Status == 405 || o.Status == 204) {
-			if _, def := staticHit.Methods[q.Method]; def {
-				viol("static-method-defined-but-405", "method is defined on the static template equal to the path")
-			}
-		}
-		if restricted && o.Calls == 0 && (o.Status == 405 || o.Status == 204) && staticHit == nil {
-			// method defined on every matching template that has a restricted assignment -> must have been dispatched
-			// (weaker, unambiguous form: exactly one template matches)
-			if len(M) == 1 {
-				if _, def := M[0].t.Methods[q.Method]; def {
-					viol("method-defined-but-405", "single matching template defines the method")
-				}
-			}
-		}
-		// 5. FindPath agrees with serving
-		if o.FindOK != (o.Calls > 0 || routed400) {
-			viol("findpath-disagrees", fmt.Sprintf("FindPath found=%v but handler invoked=%v", o.FindOK, o.Calls > 0))
-		} else if o.FindOK && o.Calls > 0 {
-			t := tmplOfOp[o.Op]
-			if o.FindName != o.Op || (t != nil && (o.FindPat != t.Path || o.FindOpID != t.Methods[q.Method])) {
-				viol("findpath-disagrees", fmt.Sprintf("FindPath reports %s %s %s, serving ran %s", o.FindName, o.FindPat, o.FindOpID, o.Op))
+			if rel := judge(true); nonSlashTail && len(rel) == 0 {
+				viol("param-with-non-slash-tail-spans-slash", "route set has a parameter directly followed by a non-slash literal, and the outcome conforms only if parameters may contain '/': "+strict[0].sig+": "+strict[0].rule)
 			} else {
-				fa := o.FindArgs
-				if !escaped {
-					// FindPath leaves args as they are when RawPath is empty; so does the handler
-				}
-				if !(len(fa) == 0 && len(o.Values) == 0) && !reflect.DeepEqual(fa, o.Values) {
-					viol("findpath-args-disagree", fmt.Sprintf("FindPath args %q, handler received %q", fa, o.Values))
+				for _, v := range strict {
+					viol(v.sig, v.rule)
 				}
 			}
 		}
+		M := lastM
+		restricted := lastRestricted
+
 		// 6. prefix
 		if qi%3 == 0 || d.Only != "" {
 			op := observe(srvP, recP, q, prefix)
